@@ -392,7 +392,26 @@ def run_case(spec):
             tx = ev['tx']
             gs = ref.gene_seq(tx.gene)
             want = seq_of(gs, ev['alt'])
-            mine = [(tx.id, r[2], r[4], r[1]) for r in by_tx.get(tx.id, []) if apply_record(gs, tx, r) == want]
+            cov_t = {g for a_, b_ in tx.exons for g in range(a_, b_)}
+            cov_a = {g for a_, b_ in ev['alt'] for g in range(a_, b_)}
+            removed, added = cov_t - cov_a, cov_a - cov_t
+
+            def footprint_matches(r):
+                # the record's own coordinates must be those of THIS event (another row of the same or another isoform can give
+                # the same sequence through a sequence repeat)
+                at = r[5]
+                dele = set(range(int(at['START']) - 1, int(at['END']))) if r[4] in ('<DEL>', '<SUB>') else set()
+                ins = set(range(int(at['DONOR_START']) - 1, int(at['DONOR_END']))) if r[4] in ('<INS>', '<SUB>') else set()
+                return dele == removed and ins == added
+            mine = [(tx.id, r[2], r[4], r[1]) for r in by_tx.get(tx.id, [])
+                    if apply_record(gs, tx, r) == want and footprint_matches(r)]
+            # the records must be attributable to THIS event: no other event of the gene gives the same sequence on tx
+            # (repeats make e.g. two different intron choices inside one exon indistinguishable by sequence)
+            others = [e2 for e2 in events if e2 is not ev and e2['gene'] is ev['gene'] and alt_for(tx, e2) is not None
+                      and alt_for(tx, e2) != list(ev['alt']) and seq_of(gs, alt_for(tx, e2)) == want]
+            if mine and others:
+                counters['annotated_form_ambiguous'] = counters.get('annotated_form_ambiguous', 0) + 1
+                continue
             if mine:
                 ev['run1_records'] = mine
                 chosen.append(ev)
@@ -470,7 +489,7 @@ def run_case(spec):
 def check(rep, tier, seed, specs=None, n_override=None):
     quick = tier == 'quick'
     if specs is None:
-        n = n_override or (2500 if quick else 100000)
+        n = n_override or (8000 if quick else 100000)
         specs = [{'seed': common.hash64('c16', 'fixed' if i < n // 2 else seed, i)} for i in range(n)]
     results, lost = common.shard_run('c16', specs, timeout_s=1500 if quick else 6 * 3600)
     rep.rule = ('generated genes (both strands, 1-2 isoforms, 2-5 exons) x rMATS events constructed FROM a transcript and its alternative exon list: '
